@@ -246,6 +246,22 @@ def clock_writers(chk: Check, repo: Repo) -> None:
                     nc = norm_cmp(ast.parse(t_, mode="eval").body, v_)
                     if nc and nc[1] in (">", ">=") and "current_timer_value" in nc[2] and isinstance(arg, ast.Name) and nc[0] == arg.id:
                         okm = True
+    if not okm and len(upc) == 1 and isinstance(arg, ast.Name):
+        # ... or under a disjunction whose other arm says that nothing authenticated has moved the timer yet: the offset
+        # still has the value __init__ gave it (every other writer adds a positive amount - clock-writer above), so what
+        # is replaced is the own, unauthenticated clock (no wrapper was sent or accepted with it: send|before-sync and the
+        # group-receive cells)
+        init0 = [w for w in attr_writes(repo, "_clock_difference", include_mutators=False) if w.func.qualname == "SecureSequenceTimer.__init__"]
+        init_v = repo.fold(init0[0].stmt.value, sy.module, sy.cls) if len(init0) == 1 else None
+        for node_ in walk_local(sy.node):
+            if isinstance(node_, ast.If) and any(x is upc[0] for st_ in node_.body for x in ast.walk(st_)) and isinstance(node_.test, ast.BoolOp) and isinstance(node_.test.op, ast.Or):
+                def ahead(t_: ast.AST) -> bool:
+                    nc = norm_cmp(t_, True)
+                    return bool(nc) and nc[1] in (">", ">=") and "current_timer_value" in nc[2] and nc[0] == arg.id
+                def untouched(t_: ast.AST) -> bool:
+                    return isinstance(t_, ast.Compare) and len(t_.ops) == 1 and isinstance(t_.ops[0], ast.Eq) and ast.unparse(t_.left) == "self._clock_difference" and isinstance(init_v, int) and repo.fold(t_.comparators[0], sy.module, sy.cls) == init_v
+                arms = node_.test.values
+                okm = any(ahead(t_) for t_ in arms) and all(ahead(t_) or untouched(t_) for t_ in arms)
     chk.ob("sync-reply-never-moves-the-timer-back", sy.site(upc[0]) if upc else sy.site(), okm, "synchronize() applies the reply only when it is ahead of the timer" if okm else "synchronize() assigns the reply's value to the timer unconditionally (`self.update(new_value=...)`): a reply lower than what the timer has reached meanwhile (other authenticated notifications / wrappers moved it on while the request was pending; or our own request echoed back from another address) sets the timer BACK — outgoing wrappers then carry a lower timer value and an older replayed wrapper falls inside the tolerance again", key="clock|sync-reply-can-move-the-timer-back")
     chk.ob("clock-update-source", sy.site(), ok, "the synchronised value is the result of the future this synchronize() created and stored as the expected reply, i.e. the one handle_timer_notify completes after MAC verification", key="clock-update-source")
     # validate_secure_wrapper is only called after decrypt_frame succeeded (table (a)) ; census of callers
